@@ -42,6 +42,12 @@ def slot(x):
     return (x + 7) / 8 * 8
 
 
+# a refusal is ANY exception class the library chooses (the properties ask for "an error"); an exception caused by a
+# stub that does not model what the code uses is a gap of the harness, not a refusal
+REFUSAL = Exception
+from vx.symx import is_stub_gap  # noqa: E402
+
+
 # --------------------------------------------------------------------------
 class PBuf:
     """word-addressed recording buffer: stores of symbolic words and of opaque payloads"""
@@ -238,6 +244,8 @@ def h_array(cfg):
         try:
             h = cls(*[dims[k] for k in dyn], _buffer=b, _offset=base)
         except Exception as ex:  # noqa
+            if is_stub_gap(ex):
+                raise symx.Inconclusive()
             e.fail(f"constructing from dimensions raised {type(ex).__name__}: {str(ex)[:60]}", det)
             e.reach()
             return
@@ -250,11 +258,16 @@ def h_array(cfg):
                 if 8 * k in words:
                     e.prove(words[8 * k] == hv, f"C05 header word {k} holds the documented value", det)
             e.prove(z3.BoolVal(cls._data_offset == sp["data_offset"]), "C05 data begin right after the header", det)
-            e.prove(z3.BoolVal(len(b.payloads) == 0), "C03 creating an array of scalars from dimensions writes nothing but its header", det)
+            # (whether the data area is left as it was or filled -- e.g. zeroed -- is the library's choice; what it writes
+            # besides the header must stay inside the array's own data area)
+            for pl in b.payloads:
+                e.prove(z3.And(pl[1] >= base.e + sp["data_offset"], pl[1] + pl[2] <= base.e + size), "C03 creating an array of scalars from dimensions writes, besides its header, only inside its own data area", det)
         # a view rebuilt from the bytes
         try:
             v = cls._from_buffer(b, base)
         except Exception as ex:  # noqa
+            if is_stub_gap(ex):
+                raise symx.Inconclusive()
             e.fail(f"rebuilding a view raised {type(ex).__name__}", det)
             e.reach()
             return
@@ -277,15 +290,14 @@ def h_array(cfg):
             nstore = len(b.payloads)
             try:
                 off = obj._get_offset(tuple(ii))
-            except IndexError:
+            except REFUSAL as ex:
+                if is_stub_gap(ex):
+                    raise symx.Inconclusive()
                 if pid == "C11":
                     e.prove(z3.Not(inrange), f"C11 {who}: IndexError is raised only for an index outside the shape", det)
                     e.prove(z3.BoolVal(len(b.payloads) == nstore), f"C11 {who}: nothing is written when the index is refused", det)
                 elif pid in ("C06", "C03", "C10"):
                     e.prove(z3.Not(inrange), f"{pid} {who}: an in-range index is accepted", det)
-                continue
-            except Exception as ex:  # noqa
-                e.fail(f"{who}: _get_offset raised {type(ex).__name__}", det)
                 continue
             off = T(off)
             if pid == "C11":
@@ -299,7 +311,9 @@ def h_array(cfg):
                         else:
                             obj[key] = 1
                         e.prove(wrap_ok, f"C11 {who}: item {op} with an index outside the shape is refused", det)
-                    except IndexError:
+                    except REFUSAL as ex:
+                        if is_stub_gap(ex):
+                            raise symx.Inconclusive()
                         e.prove(z3.Not(inrange), f"C11 {who}: item {op} refuses only out-of-shape indices", det)
                         e.prove(z3.BoolVal(len(b.payloads) == n0), f"C11 {who}: a refused item {op} writes nothing", det)
                 continue
@@ -314,8 +328,9 @@ def h_array(cfg):
                     off2 = T(obj._get_offset(tuple(jj)))
                     differ = z3.Or([i.e != j.e for i, j in zip(ii, jj)])
                     e.prove(z3.Implies(z3.And(inrange, inr2, differ), z3.Or(off + w <= off2, off2 + w <= off)), f"C03 {who}: distinct index tuples address disjoint elements", det)
-                except IndexError:
-                    pass
+                except REFUSAL as ex:
+                    if is_stub_gap(ex):
+                        raise symx.Inconclusive()
             if pid == "C10" and item != "struct16":
                 n0, w0 = len(b.payloads), len(b.words)
                 try:
@@ -324,7 +339,9 @@ def h_array(cfg):
                     e.prove(z3.BoolVal(len(new) == 1 and len(b.words) == w0), f"C10 {who}: an item assignment performs exactly one store and touches no header word", det)
                     if len(new) == 1:
                         e.prove(z3.And(new[0][1] == want, new[0][2] == w), f"C10 {who}: the store covers exactly the addressed element", det)
-                except IndexError:
+                except REFUSAL as ex:
+                    if is_stub_gap(ex):
+                        raise symx.Inconclusive()
                     e.prove(z3.Not(inrange), f"C10 {who}: an in-range item assignment is accepted", det)
         e.reach()
 
@@ -643,6 +660,8 @@ def h_dynarr(cfg):
         try:
             h = cls(value, _buffer=b, _offset=base)
         except Exception as ex:  # noqa
+            if is_stub_gap(ex):
+                raise symx.Inconclusive()
             e.fail(f"constructing an array of dynamic items raised {type(ex).__name__}: {str(ex)[:60]}", det)
             e.reach()
             return
@@ -693,6 +712,8 @@ def h_dynarr(cfg):
                     e.prove(T(oh) == T(ov), f"C06 item {idx}: same address through the constructor handle and a rebuilt view", det)
                     e.prove(T(ov) - base.e == want_off[idx], f"C06 item {idx}: the view finds it at the documented offset", det)
             except Exception as ex:  # noqa
+                if is_stub_gap(ex):
+                    raise symx.Inconclusive()
                 e.fail(f"C06 indexing an array of dynamic items through a rebuilt view raised {type(ex).__name__}: {str(ex)[:60]}", det)
         e.reach()
 
@@ -756,6 +777,8 @@ def h_ref(cfg):
             try:
                 got = reader()
             except Exception as ex:  # noqa
+                if is_stub_gap(ex):
+                    raise symx.Inconclusive()
                 e.fail(f"C08 decoding a stored reference raised {type(ex).__name__}", det)
                 e.reach()
                 return
@@ -781,6 +804,8 @@ def h_ref(cfg):
                     U._to_buffer(b, slot, obj)
                 got = reader()
             except Exception as ex:  # noqa
+                if is_stub_gap(ex):
+                    raise symx.Inconclusive()
                 e.fail(f"C08 binding a reference to an object of the same buffer raised {type(ex).__name__}: {str(ex)[:60]}", det)
                 e.reach()
                 return
@@ -909,7 +934,8 @@ def replay(kind, cfg, detail):
             bad.append(f"size {size} != layout {want_size}")
         if list(map(int, h._shape)) != list(map(int, v._shape)) or list(map(int, h._strides)) != list(map(int, v._strides)) or list(map(int, h._strides)) != strides:
             bad.append(f"shape/strides: handle {h._shape} {h._strides}, view {v._shape} {v._strides}, layout {strides}")
-        inr = all(0 <= i < d for i, d in zip(idx, sh))
+        inr = all(-d <= i < d for i, d in zip(idx, sh))  # -d..-1: refusal or the element counted from the end
+        nidx = [i + d if i < 0 else i for i, d in zip(idx, sh)]
         for who, obj in (("handle", h), ("view", v)):
             for op in ("off", "get", "set"):
                 before = bytes(buf.to_bytearray(0, 4096))
@@ -918,7 +944,7 @@ def replay(kind, cfg, detail):
                         o = obj._get_offset(tuple(idx))
                         if not inr:
                             bad.append(f"{who}: out-of-shape index {idx} accepted for shape {sh}")
-                        elif o != base + want_size * 0 + (8 * (int(bool(dyn)) + len(dyn) + (len(sh) if dyn and len(sh) > 1 else 0))) + sum(i * s for i, s in zip(idx, strides)):
+                        elif o != base + want_size * 0 + (8 * (int(bool(dyn)) + len(dyn) + (len(sh) if dyn and len(sh) > 1 else 0))) + sum(i * s for i, s in zip(nidx, strides)):
                             bad.append(f"{who}: offset of {idx} is {o}")
                     elif op == "get":
                         obj[tuple(idx) if len(idx) > 1 else idx[0]]
@@ -928,8 +954,8 @@ def replay(kind, cfg, detail):
                         obj[tuple(idx) if len(idx) > 1 else idx[0]] = 5
                         if not inr:
                             bad.append(f"{who}: writing out-of-shape index {idx} accepted")
-                except IndexError:
-                    if inr:
+                except Exception:  # any refusal class
+                    if inr and all(i >= 0 for i in idx):
                         bad.append(f"{who}: in-range index {idx} refused ({op})")
                     if bytes(buf.to_bytearray(0, 4096)) != before:
                         bad.append(f"{who}: refused {op} wrote to the buffer")
